@@ -14,8 +14,30 @@ pub fn run(tier: Tier) -> i32 {
     ctx.set_rule("E2 on corrupt, over-long and size-terminated inputs: the Stream state graph (all chunkings) is continued past failure and completion. From EVERY failed node (a write returned Err): get_output() is None, finish() is Err and delivers nothing, every further write (junk, the remaining input, repeated) returns Ok(0) and the sink is unchanged. From EVERY node in which the declared size has been reached (finish Ok with exactly that many bytes): every further write returns Ok(0) and leaves the sink unchanged, finish still Ok with the same bytes. flush() is Ok in every node; no edge may panic. distinct_nontrivial = inputs with at least one failed or completed node.");
     let all = c05::inputs(ctx.seed, tier);
     // keep: substitutions (corrupt), trailing variants (over-long), sized streams
-    let ins: Vec<&c05::Input> = all.iter().filter(|i| i.label.contains(" byte ") || i.label.contains("trailing") || i.label.contains("+size") || i.label.contains("repo file")).collect();
-    let _ = corpus::ALL_OPTS;
+    let mut extra: Vec<c05::Input> = Vec::new();
+    // over-long streams: the header size field lowered to every value (so that it falls on symbol boundaries and
+    // strictly inside copies), the stream bytes after that point are still offered
+    for it in corpus::valid_items(ctx.seed, true) {
+        if !it.sized {
+            continue;
+        }
+        if let Some(b) = it.build(corpus::OptKind::Header) {
+            let n = b.expect.len() as u64;
+            if b.bytes.len() > 200 || n > tier.pick(200, 1000) {
+                continue;
+            }
+            let stride = tier.pick(3u64, 1u64);
+            let mut sv: Vec<u64> = (0..n).filter(|v| v % stride == 0 || *v + 3 > n).collect();
+            sv.push(n + 1);
+            for s in sv {
+                let mut x = b.bytes.clone();
+                x[5..13].copy_from_slice(&s.to_le_bytes());
+                extra.push(c05::Input { label: format!("{} with header size field lowered {} -> {}", it.name, n, s), bytes: x, opts: b.opts, max_sym: 0 });
+            }
+        }
+    }
+    let mut ins: Vec<&c05::Input> = all.iter().filter(|i| i.label.contains(" byte ") || i.label.contains("trailing") || i.label.contains("+size") || i.label.contains("repo file")).collect();
+    ins.extend(extra.iter());
     let t0 = Instant::now();
     let agg = Mutex::new((0u64, 0u64, 0u64, 0u64));
     par_for(ins.len() as u64, |i| {
